@@ -299,8 +299,27 @@ func checkC06(ctx *RunCtx) int {
 		boardPlaysTweak(c, r)
 	}
 	runHands(ctx, rep, 6, ctx.N(6000, 300000), GenOpts{Hostile: true}, commonScenarios(), tweak, func() Monitor { return &C06Mon{} })
+	// independent hands on several goroutines under the race detector: games share nothing by design, a
+	// data race between them ends in a crash or a hang sooner or later
+	extra := map[string]interface{}{}
+	if reports, pairs, out, ok, why := runRaceChild(ctx, "c06race", fmt.Sprint(ctx.Seed), fmt.Sprint(ctx.N(400, 6000))); !ok {
+		extra["race_run"] = "not run: " + why
+	} else {
+		rep.Add("race_detector_runs", 1)
+		rep.Add("race_build_hands", int64(parseKV(out, "hands")))
+		rep.Add("race_build_hands_closed", int64(parseKV(out, "closed")))
+		extra["race_reports"] = reports
+		for p, n := range pairs {
+			rep.Violate(&Violation{Prop: "C06", Rule: "C06/data-race-between-independent-hands", Cause: p, Msg: fmt.Sprintf("race detector: %d report(s) between %s while independent hands are played on 8 goroutines", n, p), Kind: "conc", Case: firstLines(out, 40)})
+			rep.ViolCount["C06/data-race-between-independent-hands|"+p] += int64(n) - 1
+		}
+		if k := parseKV(out, "panics"); k > 0 {
+			rep.Violate(&Violation{Prop: "C06", Rule: "C06/panic", Cause: "concurrent-hands", Msg: fmt.Sprintf("%d hands panicked while independent hands were played on 8 goroutines: %s", k, firstLines(out, 12)), Kind: "conc", Case: firstLines(out, 40)})
+		}
+	}
 	return finish(ctx, rep, &CheckSpec{
-		Prop: "C06", Level: "exploration", EvalCounter: "hands", NonTrivSet: "nontrivial",
+		Extra: extra,
+		Prop:  "C06", Level: "exploration", EvalCounter: "hands", NonTrivSet: "nontrivial",
 		Rule:        "invalid-start grid (0/1 players, no dealer, zero/negative bankroll on each seat, empty/nil deck, for 2-9 seats) plus generated hands incl. never-stop-raising strategies; after every accepted operation the state must be one of the five wait events or GameClosed, follow the linear automaton ready->[ante]->[blinds]->(ready->started->closed | closed) per street ->GameClosed, strictly decrease the variant (stage, chips behind + live players, lap budget), have a result iff closed; after close every operation on every seat must fail and change nothing. Termination is restated as bounded progress on observed transitions (no finite run decides 'every path is finite'). Non-trivial = distinct completed hands",
 		Required:    []string{"transitions_checked", "after_close_probes", "start_refusals_checked", "start_accepts_checked", "hands_closed"},
 		Assumptions: []string{"liveness restated as bounded progress: the variant is checked on every observed transition; it is not a proof over unobserved states", "decks have at least hole*n+8 cards (the engine does not validate deck size beyond non-empty; configuration precondition)"},
